@@ -177,6 +177,14 @@ class sx_int(metaclass=_SxIntMeta):
     def __new__(cls, v=0, *a):
         if is_sym(v):
             return core.trunc_to_int(v)
+        if isinstance(v, builtins.str) and '\x00' in v:
+            from . import symstr
+            t = symstr.lift(v)
+            if z3.is_app(t) and t.decl().name() in ('int.to.str', 'str.from_int'):
+                return symstr.SInt(I(t.arg(0)))
+            raise HarnessError('int() of a symbolic string that is not a rendered integer')
+        if type(v).__name__ == 'SInt':
+            return v
         return builtins.int(v, *a)
 
 
